@@ -26,7 +26,10 @@ pub struct Abs {
     pub words: Vec<String>,
     pub mur: String,
     pub flag: String,
-    pub covseq: bool,
+    /// "none", "50+59", "50", "59": which fields of the cover sequence are written
+    pub covseq: String,
+    /// RefCover of Classify.tla for this case
+    pub ref_cover: bool,
 }
 
 impl Abs {
@@ -36,7 +39,8 @@ impl Abs {
             words: v["words"].as_array().map(|a| a.iter().filter_map(|x| x.as_str().map(|s| s.to_string())).collect()).unwrap_or_default(),
             mur: v["mur"].as_str().unwrap_or("none").to_string(),
             flag: v["flag"].as_str().unwrap_or("none").to_string(),
-            covseq: v["covseq"].as_bool().unwrap_or(false),
+            covseq: v["covseq"].as_str().unwrap_or("none").to_string(),
+            ref_cover: v["cover"].as_bool().unwrap_or(false),
         }
     }
     fn supports(&self) -> bool { matches!(self.mt.as_str(), "103" | "202" | "205") }
@@ -64,8 +68,11 @@ impl Abs {
             b.push_str(&lines.join("\r\n"));
             b.push_str("\r\n");
         }
-        if self.covseq {
-            b.push_str(":50K:/12345678\r\nJOHN DOE\r\n:59:/98765432\r\nJANE SMITH\r\n");
+        if self.covseq.contains("50") {
+            b.push_str(":50K:/12345678\r\nJOHN DOE\r\n");
+        }
+        if self.covseq.contains("59") {
+            b.push_str(":59:/98765432\r\nJANE SMITH\r\n");
         }
         let mut b3 = String::new();
         if self.mur != "none" {
@@ -132,13 +139,25 @@ fn mismatches(a: &Abs, o: &Obs) -> Vec<String> {
     if o.ret != a.ref_return() {
         v.push(format!("return:lib={}", o.ret));
     }
+    if o.cover != a.ref_cover {
+        v.push(format!("cover:lib={}", o.cover));
+    }
     if o.method != implied_method(a, o) {
         v.push(format!("method:lib={}:implied={}", o.method, implied_method(a, o)));
     }
     v
 }
 
+fn ref_cover_of(a: &Abs) -> bool {
+    (a.mt == "202" && a.covseq != "none") || (a.mt == "205" && a.words.iter().any(|w| w == "/COV/" || w == "/COVER/"))
+}
+
 fn smaller(a: &Abs) -> Vec<Abs> {
+    let out = smaller_raw(a);
+    out.into_iter().map(|mut b| { b.ref_cover = ref_cover_of(&b); b }).collect()
+}
+
+fn smaller_raw(a: &Abs) -> Vec<Abs> {
     let mut out = Vec::new();
     for i in 0..a.words.len() {
         let mut b = a.clone();
@@ -147,7 +166,7 @@ fn smaller(a: &Abs) -> Vec<Abs> {
     }
     if a.mur != "none" { let mut b = a.clone(); b.mur = "none".into(); out.push(b); }
     if a.flag != "none" { let mut b = a.clone(); b.flag = "none".into(); out.push(b); }
-    if a.covseq { let mut b = a.clone(); b.covseq = false; out.push(b); }
+    if a.covseq != "none" { let mut b = a.clone(); b.covseq = "none".into(); out.push(b); }
     out
 }
 
@@ -166,7 +185,7 @@ pub fn run(args: &[String]) -> i32 {
         let v: Value = match serde_json::from_str(&line) { Ok(v) => v, Err(_) => continue };
         let a = Abs::from(&v);
         // trusted-base check: the Rust twin of the reference predicates agrees with TLC
-        if a.ref_reject() != v["reject"].as_bool().unwrap_or(false) || a.ref_return() != v["return"].as_bool().unwrap_or(false) {
+        if a.ref_reject() != v["reject"].as_bool().unwrap_or(false) || a.ref_return() != v["return"].as_bool().unwrap_or(false) || ref_cover_of(&a) != a.ref_cover {
             eprintln!("reference twin disagrees with Classify.tla on {}", v);
             return 3;
         }
@@ -179,7 +198,7 @@ pub fn run(args: &[String]) -> i32 {
             }
         };
         evaluated += 1;
-        if !a.words.is_empty() || a.mur != "none" || a.flag != "none" || a.covseq {
+        if !a.words.is_empty() || a.mur != "none" || a.flag != "none" || a.covseq != "none" {
             nontrivial += 1;
         }
         for m in mismatches(&a, &o) {
